@@ -33,6 +33,11 @@ type Controller interface {
 	// goroutine that was running is still enabled and is alternative 0 (so that any
 	// other pick is a preemption).
 	Choose(kind Kind, n int, preempt bool, label func() string) int
+	// Visit is called with the happens-before signature of the global state before
+	// every scheduling decision with more than one alternative; returning false
+	// prunes the execution (the state was already explored with at least the
+	// remaining budget).
+	Visit(sig uint64) bool
 }
 
 type opKind int
@@ -76,6 +81,7 @@ type op struct {
 	pred  func() bool // opLock/opRLock/opWGWait/opOnce/opAcquire: enabled iff pred()
 	act   func()      // state change when the op is performed
 	what  string
+	obj   *uint64 // history hash of the synchronisation object (acquire semantics)
 
 	// results
 	completed bool // performed by a partner (rendezvous)
@@ -94,6 +100,9 @@ type G struct {
 	done    bool
 	started bool
 	nops    int
+	h       uint64 // hash of this goroutine's causal history (happens-before signature)
+	spawns  uint64
+	nobj    uint64
 }
 
 // core is the untyped state of a channel.
@@ -101,13 +110,17 @@ type core struct {
 	id     int
 	cap    int
 	buf    []any
+	bufH   []uint64
 	closed bool
+	hid    uint64 // schedule-independent identity
+	closeH uint64
 }
 
 // Result of one controlled execution.
 type Result struct {
 	Deadlock   bool
 	Horizon    bool
+	Pruned     bool // aborted by the controller: state already explored
 	Crash      string // non-empty: a goroutine other than main panicked (process death in real Go)
 	MainPanic  any    // main function panicked (re-raised value), nil otherwise
 	Steps      int
@@ -130,6 +143,7 @@ type sched struct {
 	ack      chan struct{}
 	traceOps bool
 	live     int
+	ctxIDs   map[context.Context]uint64
 }
 
 type killed struct{}
@@ -155,8 +169,8 @@ func Run(ctl Controller, opt Options, f func()) (res Result) {
 	if opt.Horizon == 0 {
 		opt.Horizon = 20000
 	}
-	s := &sched{ctl: ctl, horizon: opt.Horizon, ack: make(chan struct{}), traceOps: opt.TraceOps}
-	g0 := &G{id: 0, name: "main", wake: make(chan struct{}, 1), started: true}
+	s := &sched{ctl: ctl, horizon: opt.Horizon, ack: make(chan struct{}), traceOps: opt.TraceOps, ctxIDs: map[context.Context]uint64{}}
+	g0 := &G{id: 0, name: "main", wake: make(chan struct{}, 1), started: true, h: 0x9e3779b97f4a7c15}
 	s.gs = []*G{g0}
 	s.cur = g0
 	s.live = 1
@@ -174,7 +188,7 @@ func Run(ctl Controller, opt Options, f func()) (res Result) {
 			if g.done {
 				continue
 			}
-			if !s.res.Deadlock && !s.res.Horizon && s.res.Crash == "" {
+			if !s.res.Deadlock && !s.res.Horizon && !s.res.Pruned && s.res.Crash == "" {
 				s.res.Leaked++
 			}
 			g.wake <- struct{}{}
@@ -207,6 +221,9 @@ func Go(f func()) {
 		return
 	}
 	g := &G{id: len(s.gs), wake: make(chan struct{}, 1), pending: &op{kind: opNone, what: "start"}}
+	g.h = mix(s.cur.h, tagSpawn, s.cur.spawns)
+	s.cur.spawns++
+	s.cur.h = mix(s.cur.h, tagSpawned, 0)
 	s.gs = append(s.gs, g)
 	s.live++
 	if s.live > s.res.MaxLive {
@@ -413,6 +430,11 @@ func (s *sched) dispatch(from *G) {
 	}
 	idx := 0
 	if len(en) > 1 {
+		if !s.ctl.Visit(s.signature(from)) {
+			s.res.Pruned = true
+			s.bail(from)
+			return
+		}
 		idx = s.ctl.Choose(KSched, len(en), preempt, func() string {
 			var b strings.Builder
 			for i, g := range en {
@@ -520,8 +542,14 @@ func (s *sched) doSend(g *G, o *op, c *core, val any) {
 	default:
 		p := s.pickPartner(c, g, true)
 		s.complete(p, c, true, val)
+		ev := mix(mix(g.h, tagRdv, c.hid), p.h, 0)
+		g.h, p.h = mix(ev, 1, 0), mix(ev, 2, 0)
 		s.log("g%d send ch%d -> g%d", g.id, c.id, p.id)
 		return
+	}
+	g.h = mix(g.h, tagSend, c.hid)
+	if !c.closed {
+		c.bufH = append(c.bufH, g.h)
 	}
 	s.log("g%d send ch%d", g.id, c.id)
 }
@@ -531,6 +559,8 @@ func (s *sched) doRecv(g *G, o *op, c *core) {
 	case len(c.buf) > 0:
 		o.recvVal, o.recvOK = c.buf[0], true
 		c.buf = c.buf[1:]
+		g.h = mix(mix(g.h, tagRecv, c.hid), c.bufH[0], 0)
+		c.bufH = c.bufH[1:]
 	case c.cap == 0 && len(s.partners(c, g, false)) > 0:
 		p := s.pickPartner(c, g, false)
 		po := p.pending
@@ -547,10 +577,13 @@ func (s *sched) doRecv(g *G, o *op, c *core) {
 		}
 		s.complete(p, c, false, nil)
 		o.recvVal, o.recvOK = v, true
+		ev := mix(mix(p.h, tagRdv, c.hid), g.h, 0)
+		p.h, g.h = mix(ev, 1, 0), mix(ev, 2, 0)
 		s.log("g%d recv ch%d <- g%d", g.id, c.id, p.id)
 		return
 	default: // closed and empty
 		o.recvVal, o.recvOK = nil, false
+		g.h = mix(mix(g.h, tagRecvClosed, c.hid), c.closeH, 0)
 	}
 	s.log("g%d recv ch%d ok=%v", g.id, c.id, o.recvOK)
 }
@@ -582,6 +615,7 @@ func (s *sched) perform(g *G) {
 		}
 		if len(ready) == 0 {
 			o.selIndex = def
+			g.h = mix(g.h, tagSel, uint64(def)+1000)
 			s.log("g%d select default", g.id)
 			return
 		}
@@ -592,17 +626,22 @@ func (s *sched) perform(g *G) {
 		i := ready[k]
 		o.selIndex = i
 		cs := &o.cases[i]
+		g.h = mix(g.h, tagSel, uint64(i))
 		switch cs.kind {
 		case caseRecv:
 			s.doRecv(g, o, cs.ch)
 		case caseSend:
 			s.doSend(g, o, cs.ch, cs.val)
 		case caseDone:
+			g.h = mix(g.h, tagDone, s.ctxIDs[cs.ctx])
 			s.log("g%d select done", g.id)
 		}
 	default:
 		if o.act != nil {
 			o.act()
+		}
+		if o.obj != nil {
+			g.h = mix(mix(g.h, tagAcq, uint64(o.kind)), *o.obj, 0)
 		}
 		s.log("g%d %s %s", g.id, opNames[o.kind], o.what)
 	}
@@ -624,7 +663,10 @@ func NewChan[T any](n int) *Chan[T] {
 		return &Chan[T]{native: make(chan T, n)}
 	}
 	s.nextChan++
-	return &Chan[T]{c: &core{id: s.nextChan, cap: n}}
+	g := s.cur
+	g.nobj++
+	hid := mix(g.h, tagChan, g.nobj)
+	return &Chan[T]{c: &core{id: s.nextChan, cap: n, hid: hid}}
 }
 
 func (c *Chan[T]) core() *core {
@@ -680,6 +722,8 @@ func (c *Chan[T]) Close() {
 		panic("close of closed channel")
 	}
 	c.c.closed = true
+	s.cur.h = mix(s.cur.h, tagClose, c.c.hid)
+	c.c.closeH = s.cur.h
 	s.log("g%d close ch%d", s.cur.id, c.c.id)
 }
 
@@ -765,7 +809,7 @@ func nativeSelect(cases []Case) Sel {
 
 // Block is a scheduling point that is enabled iff pred() holds; act() is executed
 // atomically with the decision to proceed. In native mode it must not be called.
-func Block(kind string, what string, pred func() bool, act func()) {
+func Block(kind string, what string, obj *uint64, pred func() bool, act func()) {
 	s := mustActive()
 	k := opAcquire
 	switch kind {
@@ -778,7 +822,7 @@ func Block(kind string, what string, pred func() bool, act func()) {
 	case "once":
 		k = opOnce
 	}
-	s.point(&op{kind: k, pred: pred, act: act, what: what})
+	s.point(&op{kind: k, pred: pred, act: act, what: what, obj: obj})
 }
 
 // Aborting reports whether the current execution is being unwound.
@@ -793,4 +837,141 @@ func CurrentID() int {
 		return s.cur.id
 	}
 	return -1
+}
+
+// ---------------------------------------------------------------------------------
+// Happens-before signatures (used by the controller to recognise states that were
+// already explored through a different but equivalent interleaving).
+
+const (
+	tagSpawn uint64 = iota + 1
+	tagSpawned
+	tagChan
+	tagSend
+	tagRecv
+	tagRecvClosed
+	tagRdv
+	tagClose
+	tagSel
+	tagDone
+	tagAcq
+	tagRel
+	tagCtx
+	tagCtxErr
+	tagCancel
+	tagFold
+	tagWGDone
+)
+
+func mix(h, a, b uint64) uint64 {
+	h ^= a * 0xff51afd7ed558ccd
+	h = (h ^ (h >> 33)) * 0xc4ceb9fe1a85ec53
+	h ^= b * 0x9e3779b97f4a7c15
+	h = (h ^ (h >> 29)) * 0xbf58476d1ce4e5b9
+	return h ^ (h >> 32)
+}
+
+func (s *sched) opHash(o *op) uint64 {
+	if o == nil {
+		return 1
+	}
+	if o.completed {
+		return 2
+	}
+	h := uint64(o.kind) + 10
+	switch o.kind {
+	case opSend, opRecv:
+		if o.ch != nil {
+			h = mix(h, o.ch.hid, 0)
+		}
+	case opSelect:
+		for _, c := range o.cases {
+			var id uint64
+			if c.ch != nil {
+				id = c.ch.hid
+			}
+			if c.kind == caseDone {
+				id = s.ctxIDs[c.ctx]
+			}
+			h = mix(h, uint64(c.kind)+1, id)
+		}
+	default:
+		if o.obj != nil {
+			h = mix(h, *o.obj, 0)
+		}
+	}
+	return h
+}
+
+// signature combines every live goroutine's causal-history hash and pending
+// operation (commutatively: goroutine identity is part of the history hash).
+func (s *sched) signature(from *G) uint64 {
+	var sig uint64
+	for _, g := range s.gs {
+		if g.done {
+			sig += mix(g.h, 7, 7)
+			continue
+		}
+		sig += mix(g.h, s.opHash(g.pending), 3)
+	}
+	if from != nil {
+		sig = mix(sig, from.h, 5)
+	}
+	return sig
+}
+
+// Release publishes the running goroutine's history into a synchronisation object
+// (Unlock, RUnlock): the next acquirer depends on it.
+func Release(obj *uint64) {
+	if s := active; s != nil && s.cur != nil {
+		s.cur.h = mix(s.cur.h, tagRel, *obj)
+		*obj = s.cur.h
+	}
+}
+
+// ReleaseCommutative is Release for operations that are unordered among themselves
+// (WaitGroup.Done): the object accumulates the histories by addition.
+func ReleaseCommutative(obj *uint64) {
+	if s := active; s != nil && s.cur != nil {
+		s.cur.h = mix(s.cur.h, tagWGDone, 0)
+		*obj += mix(s.cur.h, tagWGDone, 1)
+	}
+}
+
+// Fold mixes an externally made choice (e.g. a map iteration order) into the
+// running goroutine's history.
+func Fold(a, b uint64) {
+	if s := active; s != nil && s.cur != nil {
+		s.cur.h = mix(s.cur.h, tagFold, mix(a, b, 0))
+	}
+}
+
+// NewCtx registers a cancellable context created by the running goroutine.
+func NewCtx(ctx context.Context) {
+	if s := active; s != nil && s.cur != nil {
+		g := s.cur
+		g.nobj++
+		s.ctxIDs[ctx] = mix(g.h, tagCtx, g.nobj)
+	}
+}
+
+// Cancelling records that the running goroutine cancels ctx (call right before cancel()).
+func Cancelling(ctx context.Context) {
+	if s := active; s != nil && s.cur != nil {
+		s.cur.h = mix(s.cur.h, tagCancel, s.ctxIDs[ctx])
+	}
+}
+
+// CtxErr replaces ctx.Err() in the knut sources: the observed value becomes part of
+// the reader's history.
+func CtxErr(ctx context.Context) error {
+	err := ctx.Err()
+	if s := active; s != nil && s.cur != nil {
+		var bit uint64
+		if err != nil {
+			bit = 1
+		}
+		s.cur.h = mix(mix(s.cur.h, tagCtxErr, s.ctxIDs[ctx]), bit, 0)
+	}
+	return err
 }
